@@ -18,6 +18,8 @@ def run(chk):
         lo, hi = H.random_box(rng, n)
         x = rng.choice(evo_corr.edge_xs(rng, n, m) + [rng.random()] * 4)
         y = [a + (b - a) * rng.random() for a, b in zip(lo, hi)]
+        if _ % 3 == 0:      # points on the faces, edges and corners of the box
+            y = [rng.choice([a, b, a, a + (b - a) * rng.random()]) for a, b in zip(lo, hi)]
         case = {'n': n, 'm': m, 'lo': lo, 'hi': hi, 'x': x, 'y': y, 'prehistory': O.random_prehistory(rng, n, lo, hi)}
         fails = O.guarded(O.c09_point, case)
         chk.evaluations += 1
